@@ -9,6 +9,10 @@ delta obligation is discharged:
 (the procedures touch one attempt row (in_batch_id, in_job_id, in_attempt_id); deactivate_instance ends all attempts of one
 instance and must leave free == cores).  Frame: nothing else changes.  By sum localisation (meta-lemma L1) the delta
 obligations preserve F.
+Wave 4 - the service also keeps the figure in memory (Instance._free_cores_mcpu) and moves it by the `delta_cores_mcpu` each
+procedure REPORTS in its result row; for the in-memory figure to stay exact the reported delta must equal the net change the call
+made to the instance's row of instances_free_cores_mcpu (for a live instance; schedule_job on a pool instance additionally
+refunds the scheduler's in-memory pre-deduction of the job's cores):  reported == free'(inst) - free(inst) [+ cores].
 """
 from __future__ import annotations
 
@@ -46,9 +50,11 @@ def _python_mirror(ctx):
 
     nothing = lambda eng, st, args, kw, node: None  # noqa: E731
     # (function, live state of the instance object, number of statements from the first `if rv[...]` on)
-    for fname, live, n in (('schedule_job', 'active', 2), ('mark_job_started', 'active', 1), ('mark_job_creating', 'pending', 1), ('unschedule_job', 'active', 1)):
+    BOTH = "re:^if rv\\['delta_cores_mcpu'\\]|^if rv\\['rc'\\]"
+    # mark_job_complete (wave 4): the refund sits inside `if instance_name: ... if instance:`; its later `if rv['rc'] != 0` is not part of it
+    for fname, live, n, anchor in (('schedule_job', 'active', 2, BOTH), ('mark_job_started', 'active', 1, BOTH), ('mark_job_creating', 'pending', 1, BOTH), ('unschedule_job', 'active', 1, BOTH), ('mark_job_complete', 'active', 1, "re:^if rv\\['delta_cores_mcpu'\\]")):
         c = Contract(
-            path=JOB, qualname=fname, label='%s[in-memory refund]' % fname, fragment=("re:^if rv\\['delta_cores_mcpu'\\]|^if rv\\['rc'\\]", n), strings=True,
+            path=JOB, qualname=fname, label='%s[in-memory refund]' % fname, fragment=(anchor, n), strings=True,
             extra_inputs={'rv': ROW, 'ISTATE': 'U'}, setup=setup,
             calls={'instance.adjust_free_cores_in_memory': adjust, 'log.info': nothing},
             ghost_init={'ADJ': '0', 'n_adj': '0'},
@@ -84,6 +90,7 @@ def build(ctx):
         base = d0.fork()
         outs = ex.run_procedure(name, st0)
         n_changed = []
+        n_reported = []
         for pi, s in enumerate(outs):
             v = s.vars
             b, j, a, inst = v['in_batch_id'], v['in_job_id'], v['in_attempt_id'], v['in_instance_name']
@@ -130,7 +137,30 @@ def build(ctx):
             same = z3.And(att1.has(K2) == att0.has(K2), att1.get(K2, 'end_time').n == att0.get(K2, 'end_time').n, sqlvc.sv_eq_values(att1.get(K2, 'instance_name'), att0.get(K2, 'instance_name')))
             ctx.add(core.valid('%s/path%d/frame-other-attempts' % (name, pi), hyps + [z3.Not(z3.And(K2[0] == K[0], K2[1] == K[1], K2[2] == K[2]))], same))
             n_changed.append(z3.And(*hyps, free1.get([inst.v], 'free_cores_mcpu').v != free0.get([inst.v], 'free_cores_mcpu').v))
+            # (wave 4) the figure the procedure REPORTS: the driver adds the column `delta_cores_mcpu` of the result row to the
+            # in-memory free cores of the instance object (contracts above), so for a live instance it must equal the net
+            # change the call made to the instance's row of instances_free_cores_mcpu.  schedule_job on a pool instance
+            # additionally refunds the scheduler's in-memory pre-deduction of the job's cores (pool.py schedule_loop_body
+            # subtracts them before the call): there the reported figure is the net change plus the job's cores.
+            rows = [row for row in s.results if any(nm == 'delta_cores_mcpu' for nm, _ in row)]
+            ctx.add(core.decided('%s/path%d/one-result-row-reporting-delta_cores_mcpu' % (name, pi), len(s.results) == 1 and len(rows) == 1, 'result sets: %r' % [[nm for nm, _ in row] for row in s.results], kind='scan'))
+            if len(rows) == 1:
+                rep = [sv for nm, sv in rows[0] if nm == 'delta_cores_mcpu'][0]
+                d_own = free1.get([inst.v], 'free_cores_mcpu').v - free0.get([inst.v], 'free_cores_mcpu').v
+                expect = d_own
+                if name == 'schedule_job':
+                    ins0 = base.tab('instances')
+                    coll = ins0.get([inst.v], 'inst_coll')
+                    ic = base.tab('inst_colls')
+                    ip = ic.get([coll.v], 'is_pool')
+                    is_pool = z3.And(z3.Not(coll.n), ic.has([coll.v]), z3.Not(ip.n), ip.v != 0)
+                    expect = d_own + z3.If(is_pool, cores.v, 0)
+                sti = ins1.get([inst.v], 'state')
+                live_i = z3.And(z3.Not(sti.n), z3.Or(sti.v == ACTIVE, sti.v == PENDING))
+                ctx.add(core.valid('%s/path%d/reported-delta-equals-net-change-of-free-cores' % (name, pi), hyps + [live_i], z3.And(z3.Not(rep.n), rep.v == expect), trace=' > '.join(s.trace[-10:])))
+                n_reported.append(z3.And(*hyps, live_i, z3.Not(rep.n), rep.v != 0))
         ctx.add(core.satisfiable('%s/vacuity/some-path-changes-free-cores' % name, z3.Or(*n_changed) if n_changed else z3.BoolVal(False)))
+        ctx.add(core.satisfiable('%s/vacuity/some-path-reports-a-non-zero-delta-for-a-live-instance' % name, z3.Or(*n_reported) if n_reported else z3.BoolVal(False)))
 
     # deactivate_instance: all attempts of the instance end; free == cores; instance inactive
     for name in ('deactivate_instance',):
